@@ -2,14 +2,14 @@
 # mkstrengthen.sh Cxx "k1 k2" : worktrees + prompt for a strengthening agent
 P=$1; KS=$2; p=$(echo $P | tr A-Z a-z)
 mkdir -p /work/$P
-[ -d /work/$P/verif ] || git -C /verif worktree add -q -b agent-${P}r /work/$P/verif main
-[ -d /work/$P/repo ] || git -C /repo worktree add -q -b fix-${P}r /work/$P/repo main
+[ -d /work/$P/verif ] || git -C /verif worktree add -q -b agent-${P}${SUFFIX:-r} /work/$P/verif main
+[ -d /work/$P/repo ] || git -C /repo worktree add -q -b fix-${P}${SUFFIX:-r} /work/$P/repo main
 MISSED=""
 for k in $KS; do MISSED="$MISSED  * /verif/seeded/$P-$k/  : $(head -1 /verif/seeded/$P-$k/notes.md | sed 's/^# *//')\n"; done
 python3 - "$P" "$p" "$MISSED" <<'PY'
-import sys
+import sys, os
 P, p, missed = sys.argv[1:]
-t = open('/work/prompts/strengthen_common.md').read().replace('{MISSED}', missed.replace('\\n', '\n')).replace('{P}', P).replace('{p}', p)
+t = open('/work/prompts/strengthen_common.md').read().replace('{MISSED}', missed.replace('\\n', '\n')).replace('{P}r', P + os.environ.get('SUFFIX', 'r')).replace('{P}x', P + os.environ.get('SUFFIX', 'x')).replace('{P}', P).replace('{p}', p)
 open('/work/%s/strengthen_prompt.md' % P, 'w').write(t)
 PY
 echo /work/$P/strengthen_prompt.md
